@@ -187,11 +187,6 @@ def run_case(case: dict) -> dict:
                 if S and R:
                     new = order == "sr"
                     probe(res, "both_active_from_on" if old else "both_active_from_off")
-                    if f"{order}-both-active" in excl:
-                        # reproduced known finding: this step is not judged, the observed
-                        # state is adopted and the run goes on
-                        relaxed = True
-                        probe(res, "known_finding_step_not_judged")
                 elif S:
                     new = True
                 elif R:
